@@ -2,6 +2,19 @@ use crate::utils::{Arr2D, Arr2DError};
 
 const MAX_ITERATIONS: usize = 100_000;
 
+// The value that scales the largest component to 1: the maximum, or the minimum when no
+// component is positive (dividing by it flips the signs). The maximum alone can be exactly 0
+// for a non-zero vector (A*1 = (0, -5)) and the division then produced NaNs
+fn normaliser(vector: &Arr2D<f64>) -> f64 {
+    // Arr2D.max() and min() only return None if the matrix is empty, which it is not here
+    let largest = vector.max().unwrap();
+    if largest > 0.0 {
+        largest
+    } else {
+        vector.min().unwrap()
+    }
+}
+
 pub fn power_method<M>(matrix: M, es: f64) -> Result<(f64, Arr2D<f64>), Arr2DError>
 where
     M: TryInto<Arr2D<f64>, Error = Arr2DError>,
@@ -12,13 +25,12 @@ where
     }
     let initial_eigenvector = Arr2D::full(1.0, matrix.height, 1);
     let mut eigenvector = &matrix * initial_eigenvector;
-    // Arr2D.max() only returns None if the matrix is empty
-    let mut eigenvalue = eigenvector.max().unwrap(); // Matrix won't be empty here
+    let mut eigenvalue = normaliser(&eigenvector);
     eigenvector = eigenvector / eigenvalue; // Normalised Eigenvector
     // The stopping rule alone does not bound the loop (zero, nilpotent or rotation-like input)
     for pass in 0..MAX_ITERATIONS {
         eigenvector = &matrix * eigenvector;
-        let normalisation_value = eigenvector.max().unwrap(); // Matrix also won't be empty here
+        let normalisation_value = normaliser(&eigenvector);
         let normalised_eigenvector = &eigenvector / normalisation_value;
 
         // Rayleigh quotient for faster convergence
